@@ -1,0 +1,71 @@
+//go:build verif
+
+// Contracts for the gRPC CAS handlers, checked by /verif (govc). Comment-only file.
+//
+// The handlers talk to the cache through the disk.Cache interface. At this level a
+// call of Put is an event: casAcked is the set of dkey(hash, size) pairs for which
+// Put(CAS, hash, size, .) returned nil during the current invocation. What Put == nil
+// means for the bytes is the contract of (*diskCache).Put (disk_contracts_verif.go).
+
+package server
+
+//@ ghost casAcked GSet
+//@ ghost putN Int
+
+// ASSUMED to be refined by (*diskCache).Put, whose verified contract has the same errclass clause.
+//@ iface (github.com/buchgr/bazel-remote/v2/cache/disk.Cache).Put(c, ctx, kind, hash, size, r)
+//@   pure
+//@   ensures errclass: result == nil || istype(result, "*cache.Error")
+//@   gmodifies casAcked, putN
+//@   gensures putN == old(putN) + 1
+//@   gensures forall k Int :: casAcked[k] == (old(casAcked)[k] || (result == nil && kind == 1 && k == dkey(hash, size)))
+
+//@ iface (github.com/buchgr/bazel-remote/v2/cache.Logger).Printf(l, format, v)
+//@   pure
+
+// ASSUMED: the zstd decoder yields a new slice (or an error) and leaves its input alone.
+//@ extern (*github.com/klauspost/compress/zstd.Decoder).DecodeAll(d, input, dst)
+//@   pure
+
+// grpc status.Error(c, msg) is nil exactly for codes.OK.
+//@ extern google.golang.org/grpc/status.Error(c, msg)
+//@   pure
+//@   ensures (c == 0) <==> (result == nil)
+//@ extern google.golang.org/grpc/status.Errorf(c, format, a)
+//@   pure
+//@   ensures (c == 0) <==> (result == nil)
+
+//@ extern errors.As(err, target)
+//@   modifies pointee(target)
+//@   ensures (result && istype(target, "**cache.Error")) ==> deref(as(target, "**cache.Error")) != nil
+//@   ensures err == nil ==> !result
+//@   ensures (istype(err, "*cache.Error") && istype(target, "**cache.Error")) ==> (result && deref(as(target, "**cache.Error")) == as(err, "*cache.Error"))
+
+//@ func gRPCErrCode(err error, dflt codes.Code) codes.Code
+//@   serves C01 C12 C17 C18
+//@   ensures[C01] okonlynil: err == nil ==> result == 0
+//@   ensures[C01] errnonzero: (err != nil && dflt != 0) ==> result != 0
+//@   ensures[C17] exhausted: (istype(err, "*cache.Error") && as(err, "*cache.Error") != nil && as(err, "*cache.Error").Code == 507) ==> result == 8
+//@   ensures[C18] clienterror: (istype(err, "*cache.Error") && as(err, "*cache.Error") != nil && as(err, "*cache.Error").Code == 400) ==> result == 3
+
+//@ func (s *grpcServer) validateHash(hash string, size int64, logPrefix string) error
+//@   serves C01 C14
+//@   requires s != nil && s.accessLogger != nil
+//@   ensures[C01] wellformed: result == nil ==> ((size == 0 && hash == "e3b0c44298fc1c149afbf4c8996fb92427ae41e4649b934ca495991b7852b855") || (size != 0 && len(hash) == 64))
+
+// One response of a BatchUpdateBlobs call: a zero status code only for a digest whose Put succeeded.
+//@ pred rrOf(x) = ptr(x, "remoteexecution.BatchUpdateBlobsResponse_Response")
+//@ pred rrGood(x) = x != 0 && allocated(x) && rrOf(x).Status != nil && allocated(rrOf(x).Status) && rrOf(x).Digest != nil && allocated(rrOf(x).Digest) &&
+//@     (rrOf(x).Status.Code == 0 ==> casAcked[dkey(rrOf(x).Digest.Hash, rrOf(x).Digest.SizeBytes)])
+
+//@ func (s *grpcServer) BatchUpdateBlobs(ctx context.Context, in *pb.BatchUpdateBlobsRequest) (*pb.BatchUpdateBlobsResponse, error)
+//@   serves C01 C14
+//@   requires s != nil && s.cache != nil && s.accessLogger != nil && s.errorLogger != nil && ctx != nil
+//@   modifies casAcked, putN, #remoteexecution.BatchUpdateBlobsRequest_Request.Data
+//@   ensures[C14] oneof: (result1 == nil) <==> (result0 != nil)
+//@   ensures[C01] acked: result1 == nil ==> (forall x Int :: inSlice(result0.Responses, x) ==> rrGood(x))
+//@   loop 0 invariant[C01] acked: forall x Int :: inSlice(resp.Responses, x) ==> rrGood(x)
+//@   loop 0 invariant mono: forall k Int :: old(casAcked)[k] ==> casAcked[k]
+//@   loop 0 invariant backing: allocated(arr(resp.Responses))
+//@   loop 0 modifies casAcked, putN, #remoteexecution.BatchUpdateBlobsRequest_Request.Data, resp.Responses, elems(resp.Responses)
+//@   call Put#* asserts[C01] declared: arg2 == 1 && arg3 == req.Digest.Hash && arg4 == req.Digest.SizeBytes && arg4 == len(req.Data)
